@@ -9,7 +9,7 @@ from vf.model.rnd import urandoms
 
 PID = "C03"
 LEVEL = "exploration"
-BUDGET = {"quick": 6000, "thorough": 300000}
+BUDGET = {"quick": 12000, "thorough": 300000}
 FORMATTERS = ["huawei", "cisco", "juniper", "nokia", "pc", "routeros", "ribbon"]
 RULE = ("Hypothesis draws a rule tree (default / %ordered / '~ %rewrite %global' diff logics; any patch logic), a vendor for compilation, "
         "and a pair (old,new): new is a mutation of old (drop / same-key change / key change / deep-only change / fresh rows / reorder), "
